@@ -6,9 +6,10 @@ proves that the emitter state machine produces exactly this layout (the emitter 
 `Lemmas/C13_Read.lean` proves that the reference reader maps the layout back to `erase v`.
 
 Fragment: null (unit / none), booleans, integers, safe strings, options, ordinary newtype structs,
-block sequences and tuples, block mappings / structs with distinct safe string keys, unit variants
-and newtype variants, nested arbitrarily.  Options: `indent_step = 2`, `empty_as_braces`, no
-`compact_list_indent`, no `quote_all`, no `yaml_12`, no `tagged_enums`.
+block sequences, tuples and tuple structs, block mappings / structs whose keys are safe strings or
+composite (sequences, mappings, variants with data of the fragment, written `? key` / `: value`) and
+pairwise different, unit, newtype, tuple and struct variants, nested arbitrarily.  Options: every `indent_step ≥ 1`, `compact_list_indent` on or off,
+`empty_as_braces`, no `quote_all`, no `yaml_12`, no `tagged_enums`.
 -/
 namespace SaphyrVerif.Emit
 open SaphyrVerif
@@ -36,9 +37,8 @@ structure SafeContract (f : ScalarFns) : Prop where
 
 /-- the option vectors of the proved fragment -/
 structure FragOpts (o : Opts) : Prop where
-  indent : o.indentStep = 2
+  indent : o.indentStep ≥ 1
   braces : o.emptyAsBraces = true
-  compact : o.compactListIndent = false
   quoteAll : o.quoteAll = false
   yaml12 : o.yaml12 = false
   tagged : o.taggedEnums = false
@@ -57,6 +57,29 @@ def keyOf : SVal → Option (List Char)
   | .str k => some k
   | _ => none
 
+/-- a safe string key -/
+def isSafeKey (k : SVal) : Bool :=
+  match keyOf k with
+  | some kt => isSafeStr kt
+  | none => false
+
+theorem isSafeKey_iff {k : SVal} (h : isSafeKey k = true) : ∃ kt, k = .str kt ∧ isSafeStr kt = true := by
+  cases k <;> simp [isSafeKey, keyOf] at h
+  exact ⟨_, rfl, h⟩
+
+/-- the non-scalar keys of the fragment (written as explicit keys `? key`) -/
+def isComplexKey : SVal → Bool
+  | .seq _ => true
+  | .tuple _ => true
+  | .tupleStruct _ => true
+  | .map _ _ => true
+  | .newtypeVariant _ _ => true
+  | .tupleVariant _ _ => true
+  | .structVariant _ _ => true
+  | .some v => isComplexKey v
+  | .newtypeStruct v => isComplexKey v
+  | _ => false
+
 mutual
 /-- the proved fragment (`w` = `folded_wrap_chars`: longer strings are auto-folded) -/
 def inFrag (w : Nat) : SVal → Bool
@@ -70,45 +93,69 @@ def inFrag (w : Nat) : SVal → Bool
   | .newtypeStruct v => inFrag w v
   | .seq xs => inFragList w xs
   | .tuple xs => inFragList w xs
-  | .map _ es => inFragEntries w es && (keysOf es).Nodup
+  | .tupleStruct xs => inFragList w xs
+  | .map _ es => inFragEntries w es && !hasDupKey (eraseEntries es)
   | .newtypeVariant n v => isSafeStr n && inFrag w v
+  | .tupleVariant n xs => isSafeStr n && inFragList w xs
+  | .structVariant n fs => isSafeStr n && (inFragEntries w fs && !hasDupKey (eraseEntries fs))
   | _ => false
 def inFragList (w : Nat) : List SVal → Bool
   | [] => true
   | v :: vs => inFrag w v && inFragList w vs
 def inFragEntries (w : Nat) : List (SVal × SVal) → Bool
   | [] => true
-  | (k, v) :: es => (match k with | .str s => isSafeStr s | _ => false) && inFrag w v && inFragEntries w es
+  | (k, v) :: es => (isSafeKey k || (isComplexKey k && inFrag w k)) && inFrag w v && inFragEntries w es
 /-- key texts (only meaningful for string keys) -/
 def keysOf : List (SVal × SVal) → List (List Char)
   | [] => []
   | (k, _) :: es => (match k with | .str s => s | _ => []) :: keysOf es
 end
 
-/-! ### layout -/
+/-! ### layout
 
-def col (depth : Nat) : Nat := 2 * depth
+Positions are COLUMNS: `k` is `indent_step`; the keys of a mapping / the dashes of a sequence stand at a
+column `c`; a collection after `key:` goes to the following lines at column `c + k`, the first entry
+of a collection after `- ` stays on the dash line, i.e. at column `c + 2`, and so do its other entries. -/
 
-/-- a sequence right after `key:` (mapping keys at depth `m`): empty = `[]` inline (on its own
-line after a block sibling), otherwise the item lines (given as `items`) -/
-def seqValOf (m : Nat) (lvb : Bool) (isEmpty : Bool) (items : List Line) : List Char × List Line × Bool :=
-  if isEmpty then (if lvb then ([], [⟨col (m + 1), "[]".toList⟩], false) else (" []".toList, [], false))
-  else ([], items, true)
+/-- a sequence right after `key:`: empty = ` []` on the line of the key, otherwise the item lines
+(given as `items`) -/
+def seqValOf (isEmpty : Bool) (items : List Line) : List Char × List Line × Bool :=
+  if isEmpty then (" []".toList, [], false) else ([], items, true)
+
+/-- a mapping right after `key:`: empty = ` {}` on the line of the key (on its own line at column `c`
+after a block sibling), otherwise the entry lines (given as `entries`) -/
+def mapValOf (c : Nat) (lvb : Bool) (isEmpty : Bool) (entries : List Line) : List Char × List Line × Bool :=
+  if isEmpty then (if lvb then ([], [⟨c, "{}".toList⟩], false) else (" {}".toList, [], false))
+  else ([], entries, true)
+
+/-- `Variant:` right after `key:`: on the next line at column `c`; `r` = the layout of the payload after
+`Variant:` -/
+def variantVal (c : Nat) (n : List Char) (r : List Char × List Line × Bool) : List Char × List Line × Bool :=
+  ([], ⟨c, n ++ [':'] ++ r.1⟩ :: r.2.1, r.2.2)
+
+/-- `Variant:` right after `- `: on the dash line -/
+def variantItem (n : List Char) (r : List Char × List Line × Bool) : List Char × List Line × Bool :=
+  (n ++ [':'] ++ r.1, r.2.1, r.2.2)
+
+/-- the column of the dashes of a sequence right after `key:` (keys at column `c`): one step deeper,
+or — `compact_list_indent` inside a mapping (`current_map_depth` set) — the column of the keys -/
+def seqCol (k : Nat) (cp inMap : Bool) (c : Nat) : Nat := if cp && inMap then c else c + k
 
 mutual
-/-- value right after `key:` of a mapping whose keys are at depth `m`; `lvb` = the incoming
-`last_value_was_block`.  Result: rest of the key line, the following lines, outgoing `lvb`. -/
-def layVal (m : Nat) (lvb : Bool) : SVal → List Char × List Line × Bool
-  | .some v => layVal m lvb v
-  | .newtypeStruct v => layVal m lvb v
-  | .seq xs => seqValOf m lvb xs.isEmpty (layItems (m + 1) false xs).1
-  | .tuple xs => seqValOf m lvb xs.isEmpty (layItems (m + 1) false xs).1
-  | .map _ es =>
-    if es.isEmpty then (if lvb then ([], [⟨col (m + 1), "{}".toList⟩], false) else (" {}".toList, [], false))
-    else ([], (layEntries (m + 1) false es).1, true)
-  | .newtypeVariant n v =>
-    let r := layVal (m + 1) lvb v
-    ([], ⟨col (m + 1), n ++ [':'] ++ r.1⟩ :: r.2.1, r.2.2)
+/-- value right after `key:` of a mapping whose keys are at column `c`; `cp` = `compact_list_indent`,
+`inMap` = `current_map_depth` is set (always, except for the payload of a variant at the root);
+`lvb` = the incoming `last_value_was_block`.  Result: rest of the key line, the following lines,
+outgoing `lvb`. -/
+def layVal (k : Nat) (cp inMap : Bool) (c : Nat) (lvb : Bool) : SVal → List Char × List Line × Bool
+  | .some v => layVal k cp inMap c lvb v
+  | .newtypeStruct v => layVal k cp inMap c lvb v
+  | .seq xs => seqValOf xs.isEmpty (layItems k cp (seqCol k cp inMap c) false xs).1
+  | .tuple xs => seqValOf xs.isEmpty (layItems k cp (seqCol k cp inMap c) false xs).1
+  | .tupleStruct xs => seqValOf xs.isEmpty (layItems k cp (seqCol k cp inMap c) false xs).1
+  | .map _ es => mapValOf (c + k) lvb es.isEmpty (layEntries k cp (c + k) false es).1
+  | .newtypeVariant n v => variantVal (c + k) n (layVal k cp true (c + k) lvb v)
+  | .tupleVariant n xs => variantVal (c + k) n (seqValOf xs.isEmpty (layItems k cp (seqCol k cp true (c + k)) false xs).1)
+  | .structVariant n fs => variantVal (c + k) n (mapValOf (c + k + k) lvb fs.isEmpty (layEntries k cp (c + k + k) false fs).1)
   | .unit => (' ' :: "null".toList, [], false)
   | .none => (' ' :: "null".toList, [], false)
   | .bool b => (' ' :: (if b then "true".toList else "false".toList), [], false)
@@ -116,16 +163,17 @@ def layVal (m : Nat) (lvb : Bool) : SVal → List Char × List Line × Bool
   | .str s => (' ' :: s, [], false)
   | .unitVariant _ n => (' ' :: n, [], false)
   | _ => ([], [], lvb)
-/-- value right after `- ` of a sequence whose dashes are at depth `d` -/
-def layItem (d : Nat) (lvb : Bool) : SVal → List Char × List Line × Bool
-  | .some v => layItem d lvb v
-  | .newtypeStruct v => layItem d lvb v
-  | .seq xs => laySeqItem d lvb xs
-  | .tuple xs => laySeqItem d lvb xs
-  | .map _ es => layMapItem d lvb es
-  | .newtypeVariant n v =>
-    let r := layVal (d + 1) lvb v
-    (n ++ [':'] ++ r.1, r.2.1, r.2.2)
+/-- value right after `- ` of a sequence whose dashes are at column `c` -/
+def layItem (k : Nat) (cp : Bool) (c : Nat) (lvb : Bool) : SVal → List Char × List Line × Bool
+  | .some v => layItem k cp c lvb v
+  | .newtypeStruct v => layItem k cp c lvb v
+  | .seq xs => laySeqItem k cp c lvb xs
+  | .tuple xs => laySeqItem k cp c lvb xs
+  | .tupleStruct xs => laySeqItem k cp c lvb xs
+  | .map _ es => layMapItem k cp c lvb es
+  | .newtypeVariant n v => variantItem n (layVal k cp true (c + 2) lvb v)
+  | .tupleVariant n xs => variantItem n (seqValOf xs.isEmpty (layItems k cp (seqCol k cp true (c + 2)) false xs).1)
+  | .structVariant n fs => variantItem n (mapValOf (c + 2 + k) lvb fs.isEmpty (layEntries k cp (c + 2 + k) false fs).1)
   | .unit => ("null".toList, [], false)
   | .none => ("null".toList, [], false)
   | .bool b => ((if b then "true".toList else "false".toList), [], false)
@@ -133,45 +181,68 @@ def layItem (d : Nat) (lvb : Bool) : SVal → List Char × List Line × Bool
   | .str s => (s, [], false)
   | .unitVariant _ n => (n, [], false)
   | _ => ([], [], lvb)
-/-- a sequence right after `- `: its first item stays on the line -/
-def laySeqItem (d : Nat) (lvb : Bool) : List SVal → List Char × List Line × Bool
+/-- a sequence right after `- ` (at column `c`): its first item stays on the line, all its dashes at `c + 2` -/
+def laySeqItem (k : Nat) (cp : Bool) (c : Nat) (lvb : Bool) : List SVal → List Char × List Line × Bool
   | [] => ("[]".toList, [], lvb)
   | x :: xs =>
-    let r := layItem (d + 1) lvb x
-    let r2 := layItems (d + 1) r.2.2 xs
+    let r := layItem k cp (c + 2) lvb x
+    let r2 := layItems k cp (c + 2) r.2.2 xs
     (['-', ' '] ++ r.1, r.2.1 ++ r2.1, true)
-/-- a mapping right after `- `: first key inline (the key prefix resets `lvb`), the others aligned -/
-def layMapItem (d : Nat) (lvb : Bool) : List (SVal × SVal) → List Char × List Line × Bool
+/-- a mapping right after `- ` (at column `c`): first key inline (the key prefix resets `lvb`), all its keys at `c + 2` -/
+def layMapItem (k : Nat) (cp : Bool) (c : Nat) (lvb : Bool) : List (SVal × SVal) → List Char × List Line × Bool
   | [] => ("{}".toList, [], lvb)
-  | (k, v) :: rest =>
-    let r := layVal (d + 1) false v
-    let r2 := layEntries (d + 1) r.2.2 rest
-    ((keyOf k).getD [] ++ [':'] ++ r.1, r.2.1 ++ r2.1, true)
-/-- the items of a block sequence at depth `d`, each starting its own line -/
-def layItems (d : Nat) (lvb : Bool) : List SVal → List Line × Bool
+  | (key, v) :: rest =>
+    match keyOf key with
+    | some kt =>
+      let r := layVal k cp true (c + 2) false v
+      let r2 := layEntries k cp (c + 2) r.2.2 rest
+      (kt ++ [':'] ++ r.1, r.2.1 ++ r2.1, true)
+    | none =>
+      -- a composite first key: `- ? key`, then `: value` under the `?`
+      let rk := layItem k cp (c + 2) false key
+      let rv := layItem k cp (c + 2) false v
+      let r2 := layEntries k cp (c + 2) rv.2.2 rest
+      (['?', ' '] ++ rk.1, rk.2.1 ++ ⟨c + 2, [':', ' '] ++ rv.1⟩ :: rv.2.1 ++ r2.1, true)
+/-- the items of a block sequence whose dashes are at column `c`, each starting its own line -/
+def layItems (k : Nat) (cp : Bool) (c : Nat) (lvb : Bool) : List SVal → List Line × Bool
   | [] => ([], lvb)
   | x :: xs =>
-    let r := layItem d lvb x
-    let r2 := layItems d r.2.2 xs
-    (⟨col d, ['-', ' '] ++ r.1⟩ :: r.2.1 ++ r2.1, r2.2)
-/-- the entries of a block mapping at depth `m`, each starting its own line -/
-def layEntries (m : Nat) (lvb : Bool) : List (SVal × SVal) → List Line × Bool
+    let r := layItem k cp c lvb x
+    let r2 := layItems k cp c r.2.2 xs
+    (⟨c, ['-', ' '] ++ r.1⟩ :: r.2.1 ++ r2.1, r2.2)
+/-- the entries of a block mapping whose keys are at column `c`, each starting its own line -/
+def layEntries (k : Nat) (cp : Bool) (c : Nat) (lvb : Bool) : List (SVal × SVal) → List Line × Bool
   | [] => ([], lvb)
-  | (k, v) :: es =>
-    let r := layVal m lvb v
-    let r2 := layEntries m r.2.2 es
-    (⟨col m, (keyOf k).getD [] ++ [':'] ++ r.1⟩ :: r.2.1 ++ r2.1, r2.2)
+  | (key, v) :: es =>
+    match keyOf key with
+    | some kt =>
+      let r := layVal k cp true c lvb v
+      let r2 := layEntries k cp c r.2.2 es
+      (⟨c, kt ++ [':'] ++ r.1⟩ :: r.2.1 ++ r2.1, r2.2)
+    | none =>
+      -- a composite key: `? key` and `: value`, each laid out like a sequence item after its dash
+      let rk := layItem k cp c lvb key
+      let rv := layItem k cp c false v
+      let r2 := layEntries k cp c rv.2.2 es
+      (⟨c, ['?', ' '] ++ rk.1⟩ :: rk.2.1 ++ ⟨c, [':', ' '] ++ rv.1⟩ :: rv.2.1 ++ r2.1, r2.2)
 end
 
-/-- the document of a root value -/
-def layRoot : SVal → List Line
-  | .some v => layRoot v
-  | .newtypeStruct v => layRoot v
-  | .seq xs => if xs.isEmpty then [⟨0, "[]".toList⟩] else (layItems 0 false xs).1
-  | .tuple xs => if xs.isEmpty then [⟨0, "[]".toList⟩] else (layItems 0 false xs).1
-  | .map _ es => if es.isEmpty then [⟨0, "{}".toList⟩] else (layEntries 0 false es).1
+/-- the document of a root value (`k` = `indent_step`, `cp` = `compact_list_indent`) -/
+def layRoot (k : Nat) (cp : Bool) : SVal → List Line
+  | .some v => layRoot k cp v
+  | .newtypeStruct v => layRoot k cp v
+  | .seq xs => if xs.isEmpty then [⟨0, "[]".toList⟩] else (layItems k cp 0 false xs).1
+  | .tuple xs => if xs.isEmpty then [⟨0, "[]".toList⟩] else (layItems k cp 0 false xs).1
+  | .tupleStruct xs => if xs.isEmpty then [⟨0, "[]".toList⟩] else (layItems k cp 0 false xs).1
+  | .map _ es => if es.isEmpty then [⟨0, "{}".toList⟩] else (layEntries k cp 0 false es).1
   | .newtypeVariant n v =>
-    let r := layVal 0 false v
+    let r := layVal k cp false 0 false v
+    ⟨0, n ++ [':'] ++ r.1⟩ :: r.2.1
+  | .tupleVariant n xs =>
+    let r := seqValOf xs.isEmpty (layItems k cp k false xs).1
+    ⟨0, n ++ [':'] ++ r.1⟩ :: r.2.1
+  | .structVariant n fs =>
+    let r := mapValOf k false fs.isEmpty (layEntries k cp k false fs).1
     ⟨0, n ++ [':'] ++ r.1⟩ :: r.2.1
   | v => match leafTok v with
     | some tok => [⟨0, tok⟩]
